@@ -71,7 +71,7 @@ def exc_spec(draw, allow_chain=True):
         args = draw(st.one_of(st.tuples(st.integers(1, 40), st.text(max_size=6)).map(list), st.lists(ARG, max_size=1)))
     else:
         args = draw(st.lists(ARG, max_size=3))
-    spec = {'cls': cls, 'args': args, 'depth': draw(st.integers(1, 6)), 'chain': None}
+    spec = {'cls': cls, 'args': args, 'depth': draw(st.one_of(st.integers(1, 6), st.integers(1, 6), st.sampled_from([20, 45]))), 'chain': None}
     if allow_chain and draw(st.integers(0, 3)) == 0:
         spec['chain'] = {'kind': draw(st.sampled_from(['cause', 'context', 'from_none'])), 'inner': draw(exc_spec(allow_chain=False))}
     return spec
@@ -265,7 +265,7 @@ def check_one_outer(y, core, hop, forward_only, prev, msg0):
 
 RULE = (
     'exception class from a zoo of pickle-round-trippable classes (builtin incl. OSError(errno, msg), custom, custom __init__, custom __reduce__ with state, 3-argument, BaseException subclass), generated args '
-    '(ints, text, None, tuples, floats), traceback depth 1-6 through generated call chains, optional explicit cause / implicit context / from None chain, 1-4 hops each "forward" or "re-raise then wrap", '
+    '(ints, text, None, tuples, floats), traceback depth 1-6 (occasionally 20 or 45 frames) through generated call chains, optional explicit cause / implicit context / from None chain, 1-4 hops each "forward" or "re-raise then wrap", '
     'optionally nested at generated positions of an EnsembleError next to values and None. Oracle after every hop: same class, equal args (and state), is_remote_exception, remote traceback contains the '
     'first-hop text; identical text on forward-only hops; nested members likewise. Non-trivial: >=2 hops, a chain, a non-plain class, or nesting; distinct by the whole case.'
 )
